@@ -130,7 +130,17 @@ def acoth(ctx, z):
 
 
 @defun_wrapped
-def asech(ctx, z): return ctx.acosh(ctx.one / z)
+def asech(ctx, z):
+    w = ctx.one / z
+    # In the fp context the imaginary part of 1/z underflows to a zero for
+    # a large complex z; its sign, opposite to that of im(z), still says
+    # on which side of the cut (-inf, 1) of acosh the quotient lies
+    if ctx._im(z) and not ctx._im(w):
+        v = ctx.acosh(ctx._re(w))
+        if ctx._im(z) > 0:
+            return ctx.conj(v)
+        return v
+    return ctx.acosh(w)
 
 @defun_wrapped
 def acsch(ctx, z): return ctx.asinh(ctx.one / z)
